@@ -221,6 +221,26 @@ class FakeTransport:
         self.default_max_packet_size = DEFAULT_MAX_PACKET_SIZE
         self.default_window_size = DEFAULT_WINDOW_SIZE
         self._T = Transport
+        # what the real Transport._parse_channel_open_success needs of its transport
+        self.lock = threading.Lock()
+        self.channel_events = {}
+        self._channels = _OneChannelMap(rig)
+
+    def _log(self, *a, **k):
+        pass
+
+    def duplicate_open_confirmation(self):
+        """the peer repeats its CHANNEL_OPEN_CONFIRMATION for this channel (same ids, current window and packet
+        size): runs the REAL Transport._parse_channel_open_success → Channel._set_remote_channel"""
+        from paramiko.message import Message
+        c = self.rig.chan
+        m = Message()
+        m.add_int(c.chanid)
+        m.add_int(self.rig.remote_id)
+        m.add_int(c.out_window_size)
+        m.add_int(c.out_max_packet_size)
+        m.rewind()
+        self._T._parse_channel_open_success(self, m)
 
     # the REAL sanitising helpers of Transport (whichever of them the channel code calls)
     def _sanitize_packet_size(self, n):
@@ -263,6 +283,16 @@ class FakeTransport:
 
     def get_exception(self):
         return None
+
+
+class _OneChannelMap:
+    """Transport._channels as far as one channel is concerned: keyed by the local id, empty once released"""
+
+    def __init__(self, rig):
+        self.rig = rig
+
+    def get(self, chanid):
+        return self.rig.chan if (self.rig.linked and chanid == self.rig.chan.chanid) else None
 
 
 class Pool:
@@ -448,6 +478,8 @@ class Rig:
             self.call(int(w[1]), "shut2", lambda: (c.shutdown(2), "-")[1])
         elif k == "gate":
             self.resume(int(w[1]), "stmtgate")
+        elif k == "psucc":
+            self.transport.duplicate_open_confirmation()
         elif k == "shutr":
             c.shutdown_read()
         elif k == "mode":
